@@ -1361,6 +1361,78 @@ example : tabulate 3 3 (sgcEntry0 (α := Rat) 1) = [[1 / 2, 1 / 2, 1], [0, 3 / 4
 
 end sgc
 
+/-! ## argument validation -/
+
+/-- **`sample_without_replacement(n, k)` is accepted exactly on its domain** `0 < n`, `0 ≤ k ≤ n` — the
+    domain on which `swr_distinct_in_range` applies (`k ≤ n` draws from a pool of `n`). -/
+theorem swrArgs_ok_iff (n k : Int) : swrArgs n k = .ok ↔ (0 < n ∧ 0 ≤ k ∧ k ≤ n) := by
+  unfold swrArgs
+  split_ifs <;> simp <;> omega
+
+example : swrArgs 5 3 = .ok ∧ swrArgs 0 0 = .valueError ∧ swrArgs 3 4 = .valueError ∧ swrArgs 3 (-1) = .valueError := by
+  decide
+
+section covargs
+set_option linter.unusedSectionVars false
+variable {K : Type} [Field K] [LinearOrder K] [IsStrictOrderedRing K]
+
+/-- **`covariance_game` accepts exactly `N ≥ 2` players and `rho ∈ [-1/(N-1), 1]`** (closed at both ends). -/
+theorem covArgs_ok_iff (N : Nat) (rho : K) :
+    covArgs (fun m : Nat => (m : K)) N rho = .ok ↔ (2 ≤ N ∧ -1 / ((N - 1 : Nat) : K) ≤ rho ∧ rho ≤ 1) := by
+  unfold covArgs
+  by_cases hN : N ≤ 1
+  · rw [if_pos hN]
+    constructor
+    · intro h; exact absurd h (by decide)
+    · rintro ⟨h, _⟩; omega
+  · rw [if_neg hN]
+    by_cases hr : -1 / ((N - 1 : Nat) : K) ≤ rho ∧ rho ≤ 1
+    · rw [if_pos hr]; exact ⟨fun _ => ⟨by omega, hr⟩, fun _ => rfl⟩
+    · rw [if_neg hr]
+      constructor
+      · intro h; exact absurd h (by decide)
+      · rintro ⟨_, h⟩; exact absurd h hr
+
+/-- **The accepted range of `rho` is exactly the range in which the covariance matrix is valid on the
+    direction of common / opposed payoffs:** for `N ≥ 2` and any payoff weights `x` with sum `s₁ = Σ xᵢ` and
+    sum of squares `s₂ = Σ xᵢ²` satisfying Cauchy–Schwarz `s₁² ≤ N·s₂`, the quadratic form of the matrix with
+    1 on the diagonal and `rho` elsewhere, `(1-rho)·s₂ + rho·s₁²`, is non-negative whenever the arguments are
+    accepted — the matrix handed to `multivariate_normal` is positive semidefinite. -/
+theorem covArgs_ok_psd (N : Nat) (rho s1 s2 : K) (h : covArgs (fun m : Nat => (m : K)) N rho = .ok)
+    (hs2 : 0 ≤ s2) (hcs : s1 ^ 2 ≤ (N : K) * s2) : 0 ≤ (1 - rho) * s2 + rho * s1 ^ 2 := by
+  obtain ⟨hN, hlo, hhi⟩ := (covArgs_ok_iff N rho).1 h
+  have hN1 : (0 : K) < ((N - 1 : Nat) : K) := by exact_mod_cast (by omega : 0 < N - 1)
+  have hcast : ((N - 1 : Nat) : K) = (N : K) - 1 := by
+    rw [Nat.cast_sub (by omega)]; simp
+  have hlo' : -1 ≤ rho * ((N : K) - 1) := by
+    rw [div_le_iff₀ hN1, hcast] at hlo; exact hlo
+  by_cases hr : 0 ≤ rho
+  · have h1 : 0 ≤ (1 - rho) * s2 := mul_nonneg (by linarith) hs2
+    have h2 : 0 ≤ rho * s1 ^ 2 := mul_nonneg hr (sq_nonneg s1)
+    linarith
+  · have hr' : rho ≤ 0 := le_of_lt (not_le.1 hr)
+    -- rho * s1^2 ≥ rho * N * s2
+    have h1 : rho * ((N : K) * s2) ≤ rho * s1 ^ 2 := mul_le_mul_of_nonpos_left hcs hr'
+    have h2 : 0 ≤ (1 + rho * ((N : K) - 1)) * s2 := mul_nonneg (by linarith) hs2
+    nlinarith
+
+example : covArgs (fun m : Nat => (m : Rat)) 3 (-1 / 2) = .ok ∧ covArgs (fun m : Nat => (m : Rat)) 3 (-3 / 5) = .valueError ∧
+    covArgs (fun m : Nat => (m : Rat)) 1 0 = .valueError ∧ covArgs (fun m : Nat => (m : Rat)) 2 1 = .ok := by
+  decide +kernel
+
+end covargs
+
+/-- `random_game` / `random_polymatrix_game` reject exactly the empty tuple; `unit_vector_game` rejects exactly
+    `avoid_pure_nash=True` with a single action (where no placement can avoid a pure equilibrium) -/
+theorem gameArgs_uvArgs_ok_iff (N n : Nat) (avoid : Bool) :
+    (gameArgs N = .ok ↔ 1 ≤ N) ∧ (uvArgs n avoid = .ok ↔ ¬ (avoid = true ∧ n = 1)) := by
+  unfold gameArgs uvArgs
+  constructor
+  · split_ifs <;> simp <;> omega
+  · split_ifs with h <;> simp [h]
+
+example : gameArgs 0 = .valueError ∧ uvArgs 1 true = .valueError ∧ uvArgs 1 false = .ok ∧ uvArgs 2 true = .ok := by decide
+
 /-! ## check_random_state -/
 
 /-- the seed normalisation is a three-way case split: the global singleton for `None`, a fresh
